@@ -300,41 +300,50 @@ def _ugla(chk, repo, ci, fn):
 
 
 def _r3(chk, repo):
+    from ..pattern import statements, unify
     specs = [
-        ("cuqi/experimental/mcmc/_rto.py:LinearRTO", "step", "self.b_tild", "CGLS(self.M,y,self.current_point,self.maxit,self.tol)", "self.current_point,_=sim.solve()"),
-        ("cuqi/experimental/mcmc/_rto.py:RegularizedLinearRTO", "step", "self.b_tild", "FISTA(self.M,y,self.current_point,self.proximal,", "self.current_point,_=sim.solve()"),
-        ("cuqi/experimental/mcmc/_laplace_approximation.py:UGLA", "step", "self._b_tild", "CGLS(self.M,y,self.current_point,self.maxit,self.tol)", "self.current_point,_=sim.solve()"),
-        ("cuqi/sampler/_rto.py:LinearRTO", "_sample", "self.b_tild", "CGLS(self.M,y,samples[:,s],self.maxit,self.tol,self.shift)", "samples[:,s+1],_=sim.solve()"),
-        ("cuqi/sampler/_rto.py:RegularizedLinearRTO", "_sample", "self.b_tild", "FISTA(self.M,y,samples[:,s],self.proximal,", "samples[:,s+1],_=sim.solve()"),
-        ("cuqi/sampler/_laplace_approximation.py:UGLA", "_sample", "self._b_tild", "CGLS(M,y,samples[:,s],self.maxit,self.tol,self._shift)", "samples[:,s+1],_=sim.solve()"),
+        ("cuqi/experimental/mcmc/_rto.py:LinearRTO", "step", "self.b_tild", "CGLS(self.M,$y,self.current_point,self.maxit,self.tol)", "self.current_point"),
+        ("cuqi/experimental/mcmc/_rto.py:RegularizedLinearRTO", "step", "self.b_tild", "FISTA(self.M,$y,self.current_point,self.proximal,maxit=self.maxit,stepsize=self._stepsize,abstol=self.abstol,adaptive=self.adaptive)", "self.current_point"),
+        ("cuqi/experimental/mcmc/_laplace_approximation.py:UGLA", "step", "self._b_tild", "CGLS(self.M,$y,self.current_point,self.maxit,self.tol)", "self.current_point"),
+        ("cuqi/sampler/_rto.py:LinearRTO", "_sample", "self.b_tild", "CGLS(self.M,$y,$ch[:,$s],self.maxit,self.tol,self.shift)", "$ch[:,$s+1]"),
+        ("cuqi/sampler/_rto.py:RegularizedLinearRTO", "_sample", "self.b_tild", "FISTA(self.M,$y,$ch[:,$s],self.proximal,maxit=self.maxit,stepsize=$st,abstol=self.abstol,adaptive=self.adaptive)", "$ch[:,$s+1]"),
+        ("cuqi/sampler/_laplace_approximation.py:UGLA", "_sample", "self._b_tild", "CGLS($M,$y,$ch[:,$s],self.maxit,self.tol,self._shift)", "$ch[:,$s+1]"),
     ]
-    for spec, fname, bt, ctor, store in specs:
+    for spec, fname, bt, ctor, state in specs:
         ci = repo.cls(spec)
         fn = repo.method(ci, fname)[1]
-        body = fn.body
-        loops = [s for s in fn.body if isinstance(s, ast.For)]
+        region = fn
+        loops = [s_ for s_ in fn.body if isinstance(s_, ast.For)]
         if loops:
-            body = loops[-1].body
-        t = [_norm(s) for s in body]
+            region = loops[-1]
+        S = statements(region, nested=True)
         problems = []
-        ys = [x for x in t if x.startswith("y=")]
-        ok_y = ys in ([f"y={bt}+np.random.randn(len({bt}))"], [f"y={bt}+e"])
-        if ys == [f"y={bt}+e"]:
-            es = [x for x in t if x.startswith("e=")]
-            ok_y = es in ([f"e=np.random.randn(len({bt}))"], [f"e=Normal(mean=np.zeros(len({bt})),std=1).sample(rng=self.rng)"])
-        if not ok_y:
+        b = None
+        for ypat in ([f"$y={bt}+np.random.randn(len({bt}))"], [f"$e=np.random.randn(len({bt}))", f"$y={bt}+$e"],
+                     [f"$e=Normal(mean=np.zeros(len({bt})),std=1).sample(rng=self.rng)", f"$y={bt}+$e"]):
+            b, _ = unify(ypat, S)
+            if b is not None:
+                break
+        if b is None:
+            ys = [t for t, a in S if bt + "+" in t or "+" + bt in t]
             problems.append(f"perturbed right-hand side is {ys}, not {bt} + N(0, I) of length len({bt})")
-        sims = [x for x in t if x.startswith("sim=")]
-        if len(sims) != 1 or not sims[0][4:].startswith(ctor):
-            problems.append(f"solver is `{sims}`, expected {ctor}...")
-        tgt = store.split(",_=")[0]
-        nst = [x for x in t if x.startswith(tgt + "=") or x.startswith(tgt + ",")]
-        if len(nst) != 1:
-            problems.append(f"the new state `{tgt}` is assigned {len(nst)} times per step: it must be the solver's result only (no dependence on the previous state)")
-        if store not in t:
-            problems.append(f"new state is not the solver's first result (`{store}`)")
-        elif sims and t.index(store) < t.index(sims[0]):
-            problems.append("state stored before the solve")
+            b = {}
+        if "y" in b:
+            bb, used = unify([f"$sim={ctor}", f"{state},$_info=$sim.solve()"], S, b)
+            if bb is None:
+                sims = [t for t, a in S if "CGLS(" in t or "FISTA(" in t]
+                problems.append(f"solver is `{sims}`: it must be constructed on (M, perturbed rhs, current state, ...) and the new state must be its first result")
+            else:
+                tgt = state
+                for k, v in bb.items():
+                    tgt = tgt.replace("$" + k, v)
+                nst = [t for t, a in S if t.startswith(tgt + "=") or t.startswith(tgt + ",")]
+                if len(nst) != 1:
+                    problems.append(f"the new state `{tgt}` is assigned {len(nst)} times per step: it must be the solver's result only (no dependence on the previous state)")
+                i_sim = [i for i, (t, a) in enumerate(S) if a is used[0]][0]
+                i_st = [i for i, (t, a) in enumerate(S) if a is used[1]][0]
+                if i_st < i_sim:
+                    problems.append("state stored before the solve")
         chk.add("C06-R3", f"{ci.qual}.{fname}", not problems, site(repo, fn), "perturb rhs, solve from the current state, keep the solver's point", "; ".join(problems), fn)
 
 
